@@ -118,6 +118,9 @@ def gen_case(streams, tier):
                 else:
                     clean.append(cyc)
             tape = clean or tape[:0]
+    if not covering and tape and f.random() < 0.3:
+        # one more read port whose address is a constant (a Python int in the user's code)
+        cfg['const_read'] = f.choice([c['wa0'] for c in tape if 'wa0' in c] or [0]) if cfg['W'] else _addr(f, cfg)
     if plain_py and tape and f.random() < 0.25:
         # a planted rtl_assert on we0 (or on its complement): it fires in cycles with (without)
         # an enabled write; the caller catches it and keeps stepping
@@ -272,6 +275,9 @@ def build(cfg):
             if mem2 is not None:
                 o2 = pyrtl.Output(cfg['bw'], 'sd%d' % r)
                 o2 <<= mem2[ra]
+        if cfg.get('const_read') is not None:
+            ko = pyrtl.Output(cfg['bw'], 'kd0')
+            ko <<= mem[pyrtl.Const(cfg['const_read'], bitwidth=cfg['aw'])]
         if cfg.get('assert'):
             we0 = blk.wirevector_by_name['we0']
             if cfg['assert'] == 'we0':
@@ -311,6 +317,9 @@ class Model(object):
                 if aa in ax['holes']:
                     raise common.RomHole(aa)
                 out['ax0'] = (ax['mul'] * aa + ax['add']) & mask(self.cfg['bw'])
+        if self.cfg.get('const_read') is not None:
+            ka = self.cfg['const_read']
+            out['kd0'] = self.rom(ka) if self.rom else self.mem.get(ka, self.cfg.get('default', 0))
         variant = self.cfg.get('variant', 'plain')
         if variant == 'registered':
             src = self.prev          # the port registers hold last cycle's inputs (0 at reset)
